@@ -111,6 +111,7 @@ func TestCheck(t *testing.T) {
 		graceWait:  2 * time.Millisecond,
 		samples:    map[string]bool{},
 		viols:      map[string]*pendingViolation{},
+		misses:     map[string]int{},
 	}
 	defer e.flushViolations()
 
@@ -119,6 +120,14 @@ func TestCheck(t *testing.T) {
 	pause := time.Duration(r.N(12, 30)) * time.Millisecond
 	r.Extra("repetitions_per_history", reps)
 	r.Extra("base_shapes", nShapes)
+
+	t0 := time.Now()
+	phases := map[string]float64{}
+	mark := func(name string, since time.Time) {
+		phases[name] += time.Since(since).Seconds()
+		t.Logf("c06: %-28s done after %6.1fs (total %6.1fs)", name, time.Since(since).Seconds(), time.Since(t0).Seconds())
+	}
+	defer func() { r.Extra("phase_seconds", phases) }()
 
 	for si := 0; si < nShapes; si++ {
 		e.s = newShape(r.Rand("shape", si))
@@ -131,10 +140,13 @@ func TestCheck(t *testing.T) {
 		}
 
 		// Phase 0: every probe on a listener started anew.
+		ts := time.Now()
 		parallel(runs, func(pr *pathRun) { e.freshPhase(pr) })
+		mark("fresh-instances", ts)
 
 		// Phase A: pinned GOMAXPROCS.
 		runtime.GOMAXPROCS(lowProcs)
+		ts = time.Now()
 		parallel(runs, func(pr *pathRun) {
 			for hi, h := range histories {
 				if h.lowProcs {
@@ -142,11 +154,17 @@ func TestCheck(t *testing.T) {
 				}
 			}
 		})
+		mark("warmed-pinned-procs", ts)
+		ts = time.Now()
 		e.overlapPhase(si, "gomaxprocs=2")
+		mark("overlap-pinned-procs", ts)
+		ts = time.Now()
 		e.upstreamPhase(si, "gomaxprocs=2", reps)
+		mark("upstream-pinned-procs", ts)
 
 		// Phase B: default GOMAXPROCS.
 		runtime.GOMAXPROCS(defProcs)
+		ts = time.Now()
 		parallel(runs, func(pr *pathRun) {
 			for hi, h := range histories {
 				if !h.lowProcs {
@@ -154,11 +172,22 @@ func TestCheck(t *testing.T) {
 				}
 			}
 		})
+		mark("warmed-default-procs", ts)
+		ts = time.Now()
 		e.overlapPhase(si, "gomaxprocs=default")
+		mark("overlap-default-procs", ts)
+		ts = time.Now()
 		e.upstreamPhase(si, "gomaxprocs=default", reps)
+		mark("upstream-default-procs", ts)
 	}
 
 	r.Bucket("handler_invocations", handlerCalls.Load())
+
+	for _, p := range append([]string{"upstream-udp", "upstream-tcp"}, pathNames()...) {
+		if e.degraded(p) {
+			r.Inconclusive("path " + p + ": promised answers kept failing to arrive within the full wait; the path was then driven with short waits and without the differential oracle")
+		}
+	}
 
 	e.mu.Lock()
 	infra := e.infra
@@ -189,6 +218,14 @@ func TestCheck(t *testing.T) {
 	r.Require("upstream_control_ok_equal_to_own_bytes", int64(r.N(20, 200)))
 	r.Require("upstream_error_for_undecodable_reply", int64(r.N(200, 2000)))
 	r.Require("upstream_differential", int64(r.N(100, 400)))
+}
+
+func pathNames() (names []string) {
+	for _, p := range allPaths {
+		names = append(names, p.name)
+	}
+
+	return names
 }
 
 func parallel(runs []*pathRun, f func(pr *pathRun)) {
@@ -567,6 +604,14 @@ func (e *env) differential(
 ) {
 	if !fr.valid {
 		e.r.Bucket("differential_skipped_no_fresh_observation", 1)
+
+		return
+	}
+
+	if e.degraded(p.name) {
+		// Promised answers keep failing to arrive on this path; "no answer"
+		// is not an observation there any more.
+		e.r.Bucket("differential_skipped_path_degraded", 1)
 
 		return
 	}
